@@ -53,7 +53,8 @@ VARIABLES
   clock,      \* the `now` the caller passes to the next call
   limit, burst, tokens, last, lastEvent,   \* the Limiter
   res,        \* the caller's reservations, in order of creation:
-              \*   [ok, n, tta (timeToAct), lim (limit at reservation time; 0 if made under Inf), st: "held" | "cancelled",
+              \*   [ok, n, tta (timeToAct), lim (limit at reservation time; 0 if made under Inf),
+              \*    st: "held" | "cancelled" | "acted" (CancelAt came after the time to act: the event has happened),
               \*    ep (ghost: epoch at reservation time)]
   ret,        \* what the last action returned / observed
   nev,        \* number of actions so far
@@ -132,7 +133,7 @@ Reserve(n) ==
           /\ res' = Append(res, [ok |-> FALSE, n |-> n, tta |-> clock, lim |-> limit, st |-> "held", ep |-> epoch])
           /\ halted' = TRUE
           /\ Refuse
-     ELSE /\ Exact(n)
+     ELSE /\ n <= burst => Exact(n)
           /\ LET ok   == n <= burst
                  d    == Deficit(n)
                  wait == IF Finite(limit) THEN d \div limit ELSE 0
@@ -151,7 +152,7 @@ Cancel(i) ==
   /\ nev < MaxEvents /\ ~halted
   /\ i \in DOMAIN res /\ res[i].st = "held"
   /\ nev' = nev + 1
-  /\ res' = [res EXCEPT ![i].st = "cancelled"]
+  /\ res' = [res EXCEPT ![i].st = IF res[i].tta < clock THEN "acted" ELSE "cancelled"]
   /\ ret' = [NoRet EXCEPT !.k = "cancel", !.id = i, !.lim = limit]
   /\ UNCHANGED <<clock, halted, pot, grants, mono, noInf, fixed, epoch>>
   /\ LET r == res[i]
@@ -227,7 +228,7 @@ TypeOK ==
   /\ limit \in Rates \cup SetRates /\ burst \in Bursts
   /\ tokens \in Int /\ last \in Int /\ lastEvent \in Int
   /\ Len(res) <= MaxRes
-  /\ \A i \in DOMAIN res : res[i].st \in {"held", "cancelled"} /\ res[i].n \in Nat
+  /\ \A i \in DOMAIN res : res[i].st \in {"held", "cancelled", "acted"} /\ res[i].n \in Nat
   /\ halted \in BOOLEAN
 
 \* "a token bucket of size b": never more than burst tokens, whatever was cancelled or set
@@ -281,7 +282,7 @@ AllowBound == (mono /\ noInf /\ ~crossed) => BucketBound
 \* The same bound over ALL events the limiter granted - Allow at its instant, every reservation that was not
 \* cancelled at its time to act - for a fixed limit.
 AllEv == [i \in DOMAIN grants |-> <<grants[i][1], grants[i][3]>>]
-         \o [i \in DOMAIN res |-> IF res[i].ok /\ res[i].st = "held" THEN <<res[i].tta, res[i].n * Unit>> ELSE <<0, 0>>]
+         \o [i \in DOMAIN res |-> IF res[i].ok /\ res[i].st # "cancelled" THEN <<res[i].tta, res[i].n * Unit>> ELSE <<0, 0>>]
 RECURSIVE SumIn(_, _, _, _)
 SumIn(s, k, t1, t2) ==
   IF k = 0 THEN 0
